@@ -133,6 +133,7 @@ def dispatch (op : String) (args : List String) : Option String :=
   | "key.factory" => some (opFactory args)
   | "impl.mac" => some (opMac args)
   | "impl.aead" => some (opAead args)
+  | "impl.malformed" => some "unusable"   -- spec (C16): such a key is not usable for anything
   | _ => none
 
 end Cose.Driver.KeyOps
